@@ -8,6 +8,7 @@ import (
 	"go/token"
 	"go/types"
 	"os"
+	"regexp"
 	"sort"
 	"strings"
 	"sync"
@@ -48,6 +49,14 @@ type Prog struct {
 
 	srcOnce sync.Once
 	srcFns  []*ssa.Function
+
+	usageOnce sync.Once
+	usage     map[*types.Var]map[string]bool
+	typeAlias map[string]*types.Named
+	neighOnce sync.Once
+	neigh     map[*ssa.Function]map[string]bool
+	funcMemo  map[string]*ssa.Function
+	fieldMemo map[string]*types.Var
 }
 
 // Load loads the repository rooted at dir. goos/goarch may be empty.
@@ -212,10 +221,24 @@ func (p *Prog) SSAPkg(rel string) *ssa.Package {
 // Func resolves "Name" (package-level function) or "T.Name" (method on T or
 // *T) in the package with module-relative path rel.
 func (p *Prog) Func(rel, name string) *ssa.Function {
+	key := "F|" + rel + "|" + name
+	if f, ok := p.funcMemo[key]; ok {
+		return f
+	}
+	f := p.funcNoMemo(rel, name)
+	if p.funcMemo == nil {
+		p.funcMemo = map[string]*ssa.Function{}
+	}
+	p.funcMemo[key] = f
+	return f
+}
+
+func (p *Prog) funcNoMemo(rel, name string) *ssa.Function {
 	f := p.funcByName(rel, name)
 	key := "F|" + rel + "|" + name
 	if f != nil {
 		p.logAnchor(key, funcSig(f))
+		p.logAnchor("G"+key[1:], p.neighString(f))
 		return f
 	}
 	// the name is gone: an unexported function may have been renamed. Resolve it through the
@@ -229,13 +252,25 @@ func (p *Prog) Func(rel, name string) *ssa.Function {
 	if sp == nil {
 		return nil
 	}
+	if i := strings.IndexByte(name, '.'); i >= 0 {
+		// the receiver type may itself have been renamed
+		if n := p.Named(rel, name[:i]); n != nil && n.Obj().Name() != name[:i] {
+			old := n.Obj().Pkg().Path() + "." + name[:i]
+			hint = regexp.MustCompile(regexp.QuoteMeta(old)+`\b`).ReplaceAllString(hint, n.Obj().Pkg().Path()+"."+n.Obj().Name())
+		}
+	}
 	var cands []*ssa.Function
 	for _, fn := range p.SrcFuncs() {
 		if fn.Pkg != sp || fn.Parent() != nil || fn.Synthetic != "" || token.IsExported(fn.Name()) {
 			continue
 		}
 		if funcSig(fn) != hint {
-			continue
+			// an unexported type of the signature other than the receiver may have been renamed
+			hs, fs := hint, funcSig(fn)
+			hi, fi := strings.IndexByte(hs, '|'), strings.IndexByte(fs, '|')
+			if hi < 0 || fi < 0 || hs[:hi] != fs[:fi] || maskLocalTypes(hs[hi:]) != maskLocalTypes(fs[fi:]) {
+				continue
+			}
 		}
 		if _, named := AnchorHints["F|"+rel+"|"+fnAnchorName(fn)]; named {
 			continue
@@ -244,7 +279,14 @@ func (p *Prog) Func(rel, name string) *ssa.Function {
 	}
 	if len(cands) == 1 {
 		p.Renamed = append(p.Renamed, name+" -> "+fnAnchorName(cands[0]))
+		CanonFunc[cands[0]] = name[strings.IndexByte(name, '.')+1:]
 		return cands[0]
+	}
+	// several functions share the signature: the one with the recorded callees and callers
+	if f := p.fnByNeighbours(AnchorHints["G"+key[1:]], cands); f != nil {
+		p.Renamed = append(p.Renamed, name+" -> "+fnAnchorName(f)+" (by its callees and callers)")
+		CanonFunc[f] = name[strings.IndexByte(name, '.')+1:]
+		return f
 	}
 	return nil
 }
@@ -291,12 +333,8 @@ func (p *Prog) funcByName(rel, name string) *ssa.Function {
 	}
 	if i := strings.IndexByte(name, '.'); i >= 0 {
 		tn, mn := name[:i], name[i+1:]
-		obj := sp.Pkg.Scope().Lookup(tn)
-		if obj == nil {
-			return nil
-		}
-		named, ok := obj.Type().(*types.Named)
-		if !ok {
+		named := p.Named(rel, tn)
+		if named == nil {
 			return nil
 		}
 		for _, t := range []types.Type{types.NewPointer(named), named} {
@@ -336,6 +374,26 @@ func (p *Prog) FieldExact(rel, tn, fn string) *types.Var {
 	return nil
 }
 
+// FieldCanon returns the field of rel.T that the rules know as name: the field
+// of that name or, after a rename that was followed, the field whose canonical
+// name it is.
+func (p *Prog) FieldCanon(rel, tn, name string) *types.Var {
+	n := p.Named(rel, tn)
+	if n == nil {
+		return nil
+	}
+	st, ok := n.Underlying().(*types.Struct)
+	if !ok {
+		return nil
+	}
+	for i := 0; i < st.NumFields(); i++ {
+		if FieldName(st.Field(i)) == name {
+			return st.Field(i)
+		}
+	}
+	return nil
+}
+
 // MutexFields lists the fields of rel.T whose type is sync.Mutex or sync.RWMutex.
 func (p *Prog) MutexFields(rel, tn string) []string {
 	n := p.Named(rel, tn)
@@ -350,7 +408,7 @@ func (p *Prog) MutexFields(rel, tn string) []string {
 	for i := 0; i < st.NumFields(); i++ {
 		ts := types.TypeString(st.Field(i).Type(), nil)
 		if ts == "sync.Mutex" || ts == "sync.RWMutex" {
-			out = append(out, st.Field(i).Name())
+			out = append(out, FieldName(st.Field(i)))
 		}
 	}
 	return out
@@ -398,7 +456,7 @@ func (p *Prog) FieldSet(rel, tn string, names []string) (fields []*types.Var, un
 		var cands []*types.Var
 		for i := 0; i < st.NumFields(); i++ {
 			f := st.Field(i)
-			if taken[f] || token.IsExported(f.Name()) || types.TypeString(f.Type(), nil) != typ {
+			if taken[f] || token.IsExported(f.Name()) || maskLocalTypes(types.TypeString(f.Type(), nil)) != maskLocalTypes(typ) {
 				continue
 			}
 			if _, named := AnchorHints["V|"+rel+"|"+tn+"|"+f.Name()]; named {
@@ -433,6 +491,13 @@ func fieldIndex(st *types.Struct, f *types.Var) int {
 	return -1
 }
 
+var localTypeRe = regexp.MustCompile(regexp.QuoteMeta(ModPath) + `((?:/[\w\-]+)*)\.([a-z_]\w*)`)
+
+// maskLocalTypes replaces the names of the repository's unexported types in a
+// type string: a field of type map[clientAddr]T is recognised after clientAddr
+// was renamed.
+func maskLocalTypes(s string) string { return localTypeRe.ReplaceAllString(s, ModPath+"$1.<t>") }
+
 // Named returns the named type rel.T, or nil.
 func (p *Prog) Named(rel, tn string) *types.Named {
 	pk := p.Pkg(rel)
@@ -441,14 +506,30 @@ func (p *Prog) Named(rel, tn string) *types.Named {
 	}
 	obj := pk.Types.Scope().Lookup(tn)
 	if obj == nil {
-		return nil
+		return p.namedByShape(rel, tn)
 	}
 	n, _ := obj.Type().(*types.Named)
+	if n != nil {
+		p.logAnchor("T|"+rel+"|"+tn, p.typeShape(n))
+	}
 	return n
 }
 
 // Field returns the field object rel.T.f, or nil.
 func (p *Prog) Field(rel, tn, fn string) *types.Var {
+	mk := rel + "|" + tn + "|" + fn
+	if f, ok := p.fieldMemo[mk]; ok {
+		return f
+	}
+	f := p.fieldNoMemo(rel, tn, fn)
+	if p.fieldMemo == nil {
+		p.fieldMemo = map[string]*types.Var{}
+	}
+	p.fieldMemo[mk] = f
+	return f
+}
+
+func (p *Prog) fieldNoMemo(rel, tn, fn string) *types.Var {
 	n := p.Named(rel, tn)
 	if n == nil {
 		return nil
@@ -461,6 +542,7 @@ func (p *Prog) Field(rel, tn, fn string) *types.Var {
 	for i := 0; i < st.NumFields(); i++ {
 		if st.Field(i).Name() == fn {
 			p.logAnchor(key, fmt.Sprintf("%d|%s", i, types.TypeString(st.Field(i).Type(), nil)))
+			p.logAnchor("U"+key[1:], p.usageString(st.Field(i)))
 			return st.Field(i)
 		}
 	}
@@ -475,7 +557,7 @@ func (p *Prog) Field(rel, tn, fn string) *types.Var {
 			var cands []*types.Var
 			for i := 0; i < st.NumFields(); i++ {
 				f := st.Field(i)
-				if token.IsExported(f.Name()) || types.TypeString(f.Type(), nil) != typ {
+				if token.IsExported(f.Name()) || maskLocalTypes(types.TypeString(f.Type(), nil)) != maskLocalTypes(typ) {
 					continue
 				}
 				if _, named := AnchorHints["V|"+rel+"|"+tn+"|"+f.Name()]; named {
@@ -485,12 +567,20 @@ func (p *Prog) Field(rel, tn, fn string) *types.Var {
 			}
 			if len(cands) == 1 {
 				p.Renamed = append(p.Renamed, tn+"."+fn+" -> "+tn+"."+cands[0].Name())
+				CanonField[cands[0]] = fn
 				return cands[0]
 			}
-			// several fields of that type are unnamed: the one that kept the recorded position
+			// several fields of that type are unnamed: the one written and read by the recorded functions
+			if f := p.byUsage(AnchorHints["U"+key[1:]], cands); f != nil {
+				p.Renamed = append(p.Renamed, tn+"."+fn+" -> "+tn+"."+f.Name()+" (by its writers and readers)")
+				CanonField[f] = fn
+				return f
+			}
+			// or the one that kept the recorded position
 			for _, f := range cands {
 				if fieldIndex(st, f) == idx {
 					p.Renamed = append(p.Renamed, tn+"."+fn+" -> "+tn+"."+f.Name()+" (by position)")
+					CanonField[f] = fn
 					return f
 				}
 			}
